@@ -77,6 +77,17 @@ def gen(rng, idx, tier):
     fmt = rng.choice(["ebyte", "usb", "yd", "plain"])
     bnm = rng.random() < 0.3
     listeners = [gen_filter(rng, pgns) for _ in range(rng.randrange(3, 7))]
+    # wall clock: mostly a dense history, sometimes with long silences (minutes) between bursts
+    t = rng.choice([0.0, 0.0, 30.0, 590.0, 700.0])
+    pace = rng.choice(["dense", "dense", "gappy", "slow"])
+    for e in ev:
+        if pace == "slow":
+            t += rng.uniform(40.0, 200.0)         # a quiet bus: minutes pass between the messages of one source
+        elif pace == "gappy" and rng.random() < 0.15:
+            t += rng.choice([100.0, 301.0, 400.0, 900.0])
+        else:
+            t += rng.uniform(0.0, 0.2)
+        e["at"] = round(t, 3)
     return {"format": fmt, "build_network_map": bnm, "events": ev, "listeners": listeners}
 
 
@@ -97,7 +108,8 @@ def permitted(m, cfg):
 
 def execute(plan):
     from nmea2000.decoder import NMEA2000Decoder
-    bus.with_clock(None)
+    vc = bus.VClock(0.0)
+    bus.with_clock(vc)
     fmt = plan["format"]
     bnm = bool(plan.get("build_network_map"))
     v = []
@@ -110,11 +122,13 @@ def execute(plan):
     log = []
     for evno, e in enumerate(plan["events"]):
         st["frames"] += 1
-        u, _ = bus.feed_frame(un, fmt, e["f"])
+        vc.t = e.get("at", vc.t)
+        stamp = bus.stamp_for(vc.t)
+        u, _ = bus.feed_frame(un, fmt, e["f"], stamp)
         uk = msgs.key(u)
         log.append(uk[:5] if uk else None)
         for li, (d, cfg) in enumerate(zip(ls, plan["listeners"])):
-            f, exc = bus.feed_frame(d, fmt, e["f"])
+            f, exc = bus.feed_frame(d, fmt, e["f"], stamp)
             fk = msgs.key(f)
             if u is not None and permitted(u, cfg):
                 st["permitted"] += 1
